@@ -56,11 +56,24 @@ def render_module(m, style="header", comments=False):
     if m.get("params"):
         w("#(" + ", ".join("parameter %s = %s" % kv for kv in m["params"].items()) + ")")
     dirs = {"in": "input", "out": "output", "inout": "inout"}
+    def alias(p):
+        return len(p) > 4 and p[4]
+
+    def plist_entry(p, ansi):
+        if alias(p):
+            return ".%s({%s})" % (esc(p[0]).strip(), ", ".join(esc(a) for a in p[4]))
+        return "%s %s%s" % (dirs[p[1]], rng(p[2], p[3]), esc(p[0])) if ansi else esc(p[0])
+
     if style == "ansi":
-        w("(" + ",\n ".join("%s %s%s" % (dirs[p[1]], rng(p[2], p[3]), esc(p[0])) for p in m["ports"]) + ");")
+        w("(" + ",\n ".join(plist_entry(p, True) for p in m["ports"]) + ");")
     else:
-        w("(" + ", ".join(esc(p[0]) for p in m["ports"]) + ");")
-        for p in m["ports"]:
+        w("(" + ", ".join(plist_entry(p, False) for p in m["ports"]) + ");")
+    for p in m["ports"]:
+        if alias(p):
+            # the direction of an aliased header port is declared on the nets behind it
+            for a in p[4]:
+                w("  %s %s;" % (dirs[p[1]], esc(a)))
+        elif style != "ansi":
             w("  %s %s%s;" % (dirs[p[1]], rng(p[2], p[3]), esc(p[0])))
             if comments:
                 w("  // after a port declaration")
@@ -103,6 +116,10 @@ def widths(m):
     """name -> (width, lower) of every declared net (ports and wires) of a module."""
     out = {}
     for p in m["ports"]:
+        if len(p) > 4 and p[4]:
+            for a in p[4]:
+                out[a] = (1, 0, False)
+            continue
         out[p[0]] = (1, 0, False) if p[2] is None else (p[2] - p[3] + 1, p[3], True)
     for x in m.get("wires", ()):
         out[x[0]] = (1, 0, False) if x[1] is None else (x[1] - x[2] + 1, x[2], True)
@@ -138,6 +155,10 @@ def expected(vad):
         cables = {k: (v[0], v[1]) for k, v in nets.items()}
         conn = {}
         for p in m["ports"]:
+            if len(p) > 4 and p[4]:
+                for k, a in enumerate(reversed(p[4])):   # MSB first in the text, pin k = bit k from the LSB end
+                    conn.setdefault((a, 0), set()).add(("P", p[0], k))
+                continue
             wd, lo, _ = nets[p[0]]
             for k in range(wd):
                 conn.setdefault((p[0], lo + k), set()).add(("P", p[0], k))
@@ -172,7 +193,8 @@ def expected(vad):
             assigns.append((len(lb), frozenset(zip((touch(b) for b in lb), (touch(b) for b in rb)))))
         out["modules"][m["name"]] = {"cables": cables, "conn": {k: frozenset(v) for k, v in conn.items()},
                                      "insts": insts, "assigns": sorted(assigns, key=repr),
-                                     "ports": [(p[0], p[1], 1 if p[2] is None else p[2] - p[3] + 1, 0 if p[2] is None else p[3]) for p in m["ports"]],
+                                     "ports": [(p[0], p[1], len(p[4]), 0) if len(p) > 4 and p[4] else
+                                               (p[0], p[1], 1 if p[2] is None else p[2] - p[3] + 1, 0 if p[2] is None else p[3]) for p in m["ports"]],
                                      "params": dict(m.get("params") or {}), "attrs": dict(m.get("attrs") or {})}
     for m in vad["modules"]:
         if m.get("celldefine"):
